@@ -8,6 +8,7 @@
     (number of nodes + 1); [None] = the Go code does not return a value there (nil parent pointer,
     index out of range, or no termination on a parent cycle) — never a normal-looking default. *)
 From Coq Require Import NArith ZArith List Bool FMapPositive.
+From Coq Require Import Floats.SpecFloat.
 Import ListNotations.
 Open Scope N_scope.
 
@@ -137,9 +138,15 @@ Definition rank_of (t : tax) (x : N) : option N := option_map snd (get t x).
 Definition rank_listed (t : tax) (r : N) : bool :=
   existsb (fun e : positive * (N * N) => snd (snd e) =? r) (PM.elements (t_nodes t)).
 
-(** ** Weighted LCA, Taxonomy.LCA(sequence, 1.0).
-    TaxonomicDistribution: every key of merged_taxid is resolved (panic when unknown); two keys
-    resolving to the same node overwrite each other (map order: here the later entry wins). *)
+(** ** Weighted LCA, Taxonomy.LCA(sequence, threshold).
+    TaxonomicDistribution: every key of merged_taxid is resolved (panic when unknown); the weights of
+    two keys resolving to the same node are ADDED (after the round-2 fix; [upsert]/[distribution_ow] is
+    the behaviour before the fix: the entry iterated last overwrote the other, C14_distribution_overwrite_refuted). *)
+Fixpoint addw (x : N) (w : Z) (l : list (N * Z)) : list (N * Z) :=
+  match l with
+  | [] => [(x, w)]
+  | (y, v) :: l' => if y =? x then (x, (v + w)%Z) :: l' else (y, v) :: addw x w l'
+  end.
 Fixpoint upsert (x : N) (w : Z) (l : list (N * Z)) : list (N * Z) :=
   match l with
   | [] => [(x, w)]
@@ -148,7 +155,12 @@ Fixpoint upsert (x : N) (w : Z) (l : list (N * Z)) : list (N * Z) :=
 Fixpoint distribution (t : tax) (m : list (N * Z)) (acc : list (N * Z)) : option (list (N * Z)) :=
   match m with
   | [] => Some acc
-  | (k, w) :: m' => match resolve t k with None => None | Some x => distribution t m' (upsert x w acc) end
+  | (k, w) :: m' => match resolve t k with None => None | Some x => distribution t m' (addw x w acc) end
+  end.
+Fixpoint distribution_ow (t : tax) (m : list (N * Z)) (acc : list (N * Z)) : option (list (N * Z)) :=
+  match m with
+  | [] => Some acc
+  | (k, w) :: m' => match resolve t k with None => None | Some x => distribution_ow t m' (upsert x w acc) end
   end.
 
 (** taxa as (remaining root-first path, weight) *)
@@ -202,14 +214,166 @@ Definition wlca (t : tax) (m : list (N * Z)) : option (option N) :=
     end
   end.
 
+(** the behaviour before the fix of TaxonomicDistribution (overwrite) *)
+Definition wlca_ow (t : tax) (m : list (N * Z)) : option (option N) :=
+  match distribution_ow t m [] with
+  | None => None
+  | Some d =>
+    match rpaths t d with
+    | None => None
+    | Some ts => wl (S (fuel_of t)) ts (match ts with (h :: _, _) :: _ => Some h | _ => None end)
+    end
+  end.
+
+(** ** The descent for ANY threshold.  [score]: the arithmetic of rmax (one, zero, rmax * (w / t), rmax >= threshold).
+    One turn of [wld] = one turn of the Go loop whose test [rmax >= threshold] has passed: answer = tmax,
+    rans = r; the per-level table is [head_weight], total = [total], weighMax = [maxw]; taxonMax is ANY
+    key of the level table whose weight is weighMax > 0 (Go iterates a map and keeps the first maximum met:
+    [wld] takes the first in list order, [wld_all] collects the outcomes of every possible choice). *)
+Record score (R : Type) := mkScore { s_one : R; s_zero : R; s_mul : R -> Z -> Z -> R; s_ge : R -> bool }.
+Arguments mkScore {R}. Arguments s_one {R}. Arguments s_zero {R}. Arguments s_mul {R}. Arguments s_ge {R}.
+
+Definition maxw (ts : list wt) : Z := fst (argmax ts ts 0%Z None).
+Definition pick (ts : list wt) : option N := snd (argmax ts ts 0%Z None).
+Definition next_r {R} (sc : score R) (ts : list wt) (r : R) : R :=
+  if (0 <? total ts)%Z then s_mul sc r (maxw ts) (total ts) else s_zero sc.
+Definition next_ts (ts : list wt) (tm : option N) : list wt := map strip (filter (keep tm) ts).
+
+Fixpoint wld {R} (sc : score R) (fuel : nat) (ts : list wt) (r : R) (tmax : option N) : option (option N * R) :=
+  match fuel with
+  | O => None
+  | S f => let r' := next_r sc ts r in
+           if s_ge sc r' then wld sc f (next_ts ts (pick ts)) r' (pick ts) else Some (tmax, r)
+  end.
+
+Fixpoint heads (ts : list wt) : list N :=
+  match ts with
+  | [] => []
+  | (h :: _, _) :: r => if mem h (heads r) then heads r else h :: heads r
+  | ([], _) :: r => heads r
+  end.
+Definition cands (ts : list wt) : list (option N) :=
+  if (0 <? maxw ts)%Z then map Some (filter (fun h => (head_weight h ts =? maxw ts)%Z) (heads ts)) else [None].
+Definition ocat {A} (a b : option (list A)) : option (list A) :=
+  match a, b with Some x, Some y => Some (x ++ y) | _, _ => None end.
+Fixpoint wld_all {R} (sc : score R) (fuel : nat) (ts : list wt) (r : R) (tmax : option N) : option (list (option N * R)) :=
+  match fuel with
+  | O => None
+  | S f => let r' := next_r sc ts r in
+           if s_ge sc r'
+           then fold_right (fun tm acc => ocat (wld_all sc f (next_ts ts tm) r' tm) acc) (Some []) (cands ts)
+           else Some [(tmax, r)]
+  end.
+(** no level whose share passes the threshold has two maximal children *)
+Fixpoint notie {R} (sc : score R) (fuel : nat) (ts : list wt) (r : R) : bool :=
+  match fuel with
+  | O => true
+  | S f => let r' := next_r sc ts r in
+           if s_ge sc r'
+           then match cands ts with [tm] => notie sc f (next_ts ts tm) r' | _ => false end
+           else true
+  end.
+
+(** the three arithmetics: IEEE binary64 (the Go code), exact rationals n/d, and "still equal to 1" (threshold 1.0) *)
+Definition b64_of_Z (n : Z) : spec_float := binary_normalize 53 1024 n 0 false.
+Definition sc_b64 (thr : spec_float) : score spec_float :=
+  mkScore (b64_of_Z 1) (S754_zero false)
+          (fun r w t => SFmul 53 1024 r (SFdiv 53 1024 (b64_of_Z w) (b64_of_Z t)))
+          (fun r => SFleb thr r).
+Definition sc_q (tn td : Z) : score (Z * Z) :=
+  mkScore (1, 1)%Z (0, 1)%Z (fun r w t => (fst r * w, snd r * t)%Z) (fun r => (tn * snd r <=? fst r * td)%Z).
+Definition sc_one : score bool := mkScore true false (fun r w t => (r && (w =? t)%Z)%bool) (fun r => r).
+
+(** Taxonomy.LCA(sequence, threshold): every possible (answer, rans, granTotal); None = panic / no return *)
+Definition wlcad {R} (sc : score R) (t : tax) (m : list (N * Z)) : option (list (option N * R * Z)) :=
+  match distribution t m [] with
+  | None => None
+  | Some d =>
+    match rpaths t d with
+    | None => None
+    | Some ts =>
+      let init := match ts with (h :: _, _) :: _ => Some h | _ => None end in
+      if s_ge sc (s_one sc)
+      then option_map (map (fun ar : option N * R => (ar, total ts))) (wld_all sc (S (fuel_of t)) ts (s_one sc) init)
+      else Some [(init, s_one sc, total ts)]
+    end
+  end.
+(** the same with the first maximum in list order *)
+Definition wlcad1 {R} (sc : score R) (t : tax) (m : list (N * Z)) : option (option N * R) :=
+  match distribution t m [] with
+  | None => None
+  | Some d =>
+    match rpaths t d with
+    | None => None
+    | Some ts =>
+      let init := match ts with (h :: _, _) :: _ => Some h | _ => None end in
+      if s_ge sc (s_one sc) then wld sc (S (fuel_of t)) ts (s_one sc) init else Some (init, s_one sc)
+    end
+  end.
+
+(** ** Taxonomy.Taxon(interface{}): int; string = strconv.Atoi, else the first match of TX:(\d+); any other
+    dynamic type leaves itaxid = 0 (the switch has no default): taxid 0 is looked up. *)
+Inductive tform := FInt (z : Z) | FStr (s : list N) | FOther.
+Definition is_digit (c : N) : bool := ((48 <=? c) && (c <=? 57))%bool.
+Fixpoint digits_val (acc : Z) (s : list N) : Z :=
+  match s with [] => acc | c :: r => digits_val (10 * acc + Z.of_N (c - 48))%Z r end.
+Definition all_digits (s : list N) : bool := match s with [] => false | _ => forallb is_digit s end.
+Definition int_lim : Z := (2 ^ 63)%Z.
+(** strconv.Atoi (base 10, optional sign, no underscore, int64 range) *)
+Definition atoi_u (r : list N) : option Z :=
+  if all_digits r then (if (digits_val 0 r <? int_lim)%Z then Some (digits_val 0 r) else None) else None.
+Definition atoi (s : list N) : option Z :=
+  match s with
+  | [] => None
+  | c :: r =>
+    if c =? 43 then atoi_u r
+    else if c =? 45 then (if all_digits r then (if (digits_val 0 r <=? int_lim)%Z then Some (- digits_val 0 r)%Z else None) else None)
+    else atoi_u s
+  end.
+Fixpoint span_digits (s : list N) : list N * list N :=
+  match s with
+  | c :: r => if is_digit c then (let p := span_digits r in (c :: fst p, snd p)) else ([], s)
+  | [] => ([], [])
+  end.
+(** leftmost match of TX:(\d+), greedy digits *)
+Fixpoint find_tx (s : list N) : option (list N) :=
+  match s with
+  | [] => None
+  | c :: r =>
+    if c =? 84 then
+      match r with
+      | x1 :: x2 :: r2 => if ((x1 =? 88) && (x2 =? 58))%bool
+                          then match fst (span_digits r2) with [] => find_tx r | d => Some d end
+                          else find_tx r
+      | _ => find_tx r
+      end
+    else find_tx r
+  end.
+(** Atoi of the captured digits with its error dropped: on a range error Atoi returns MaxInt64 *)
+Definition clamp (v : Z) : Z := if (v <? int_lim)%Z then v else (int_lim - 1)%Z.
+Definition form_taxid (f : tform) : option Z :=
+  match f with
+  | FInt z => Some z
+  | FOther => Some 0%Z
+  | FStr s => match atoi s with
+              | Some v => Some v
+              | None => match find_tx s with Some d => Some (clamp (digits_val 0 d)) | None => None end
+              end
+  end.
+Definition resolveZ (t : tax) (z : Z) : option N := if (z <? 0)%Z then None else resolve t (Z.to_N z).
+Definition taxon_of (t : tax) (f : tform) : option N :=
+  match form_taxid f with Some z => resolveZ t z | None => None end.
+
 (** ** Sequence predicates and workers (pkg/obitax/sequence_*.go composed as in obigrep/options.go) *)
 Record seq := mkseq {
   s_taxid : option N;                 (* taxid attribute; absent = 1 *)
   s_merged : option (list (N * Z));   (* merged_taxid attribute *)
   s_restrict : list N; s_ignore : list N; s_require : list N;
   s_atrank : list (N * Z);            (* rank, observed <rank>_taxid *)
-  s_slot : option N;
-  s_obs : list Z                      (* valid restrict ignore require slotsub wlca lcaattr *)
+  s_slot : option tform;              (* the value of the attribute read by IsSubCladeOfSlot, as Taxonomy.Taxon(string) receives it *)
+  s_obs : list Z;                     (* valid restrict ignore require slotsub wlca lcaattr *)
+  s_thr : list (spec_float * list (Z * spec_float * Z));  (* threshold, observed set of (taxid, rans, granTotal) over repeated runs *)
+  s_notax : Z                         (* AddLCAWorker on a sequence with neither taxid nor merged_taxid (-9: has one) *)
 }.
 Definition seq_taxid (s : seq) : N := match s_taxid s with Some x => x | None => 1 end.
 
@@ -260,7 +424,7 @@ Definition require (t : tax) (s : seq) (rs : list N) : Z :=
 Definition slotsub (t : tax) (s : seq) : Z :=
   match s_slot s with
   | None => (-9)%Z
-  | Some c => match resolve t c, resolve t (seq_taxid s) with
+  | Some c => match taxon_of t c, resolve t (seq_taxid s) with
               | Some p, Some x => zob (subclade t x p)
               | _, _ => 0%Z
               end
@@ -306,22 +470,59 @@ Definition wf_check (t : tax) : bool :=
                (implb (self_looped e) (x =? root) && is_some (get t (fst (snd e))) && is_some (path t x))%bool) els
   end.
 
-(** ** Names (names.dmp rows: taxid, name code, is the class "scientific name").  loadNameTable runs
-    before the merged table is read, so a row designates a taxon only through the node table; the
-    last scientific name wins; every other name is an alternate name.  IsNameEqual dereferences the
+(** ** Names.  names.dmp rows: taxid | name | unique name (ignored by the loader) | class; fields are byte
+    strings (already split on '|' and trimmed).  loadNameTable runs before the merged table is read, so a row
+    designates a taxon only through the node table; the last row of class "scientific name" wins; every
+    other row is an alternate name (a map keyed by the name).  IsNameEqual / IsNameMatching dereference the
     scientific name (nil pointer panic = [None] when the taxon has none). *)
-Definition name_row := (N * N * bool)%type.
+Definition bstr := list N.
+Fixpoint beqb (a b : bstr) : bool :=
+  match a, b with
+  | [], [] => true
+  | x :: a', y :: b' => ((x =? y) && beqb a' b')%bool
+  | _, _ => false
+  end.
+(** "scientific name" *)
+Definition sci_class : bstr := [115;99;105;101;110;116;105;102;105;99;32;110;97;109;101].
+Definition name_row := (N * bstr * bstr)%type.
+Definition is_sci (r : name_row) : bool := beqb (snd r) sci_class.
 Definition load_names (onlysn : bool) (rows : list name_row) : list name_row :=
-  if onlysn then filter (fun r : name_row => snd r) rows else rows.
-Definition sci_name (rows : list name_row) (x : N) : option N :=
-  fold_left (fun acc (r : name_row) => if (snd r && (fst (fst r) =? x))%bool then Some (snd (fst r)) else acc) rows None.
-Definition alt_names (rows : list name_row) (x : N) : list N :=
-  map (fun r : name_row => snd (fst r)) (filter (fun r : name_row => (negb (snd r) && (fst (fst r) =? x))%bool) rows).
-Definition name_equal (rows : list name_row) (x n : N) : option bool :=
+  if onlysn then filter is_sci rows else rows.
+Definition sci_name (rows : list name_row) (x : N) : option bstr :=
+  fold_left (fun acc (r : name_row) => if (is_sci r && (fst (fst r) =? x))%bool then Some (snd (fst r)) else acc) rows None.
+Definition alt_names (rows : list name_row) (x : N) : list bstr :=
+  map (fun r : name_row => snd (fst r)) (filter (fun r : name_row => (negb (is_sci r) && (fst (fst r) =? x))%bool) rows).
+Definition name_equal (rows : list name_row) (x : N) (n : bstr) : option bool :=
   match sci_name rows x with
   | None => None
-  | Some sn => Some ((sn =? n) || mem n (alt_names rows x))%bool
+  | Some sn => Some (beqb sn n || existsb (beqb n) (alt_names rows x))%bool
   end.
+(** IsNameMatching: [rm pat s] stands for regexp.MatchString (an oracle) *)
+Definition name_matching {P} (rm : P -> bstr -> bool) (rows : list name_row) (x : N) (pat : P) : option bool :=
+  match sci_name rows x with
+  | None => None
+  | Some sn => Some (rm pat sn || existsb (rm pat) (alt_names rows x))%bool
+  end.
+(** a finite table of observed regexp verdicts (pattern code, subject, verdict) as the oracle *)
+Definition rm_tab (tab : list (N * bstr * bool)) (pat : N) (s : bstr) : bool :=
+  existsb (fun e : N * bstr * bool => ((fst (fst e) =? pat) && beqb (snd (fst e)) s && snd e)%bool) tab.
+
+(** ** One line of names.dmp: strings.Split(line, "|"), fields 0, 1, 3 trimmed (field 2, the unique name, is never read) *)
+Definition is_space (c : N) : bool := ((c =? 32) || (c =? 9) || (c =? 10) || (c =? 11) || (c =? 12) || (c =? 13))%bool.
+Fixpoint ltrim (s : list N) : list N := match s with c :: r => if is_space c then ltrim r else s | [] => [] end.
+Definition trim (s : list N) : list N := rev (ltrim (rev (ltrim s))).
+Fixpoint split_bar (s cur : list N) : list (list N) :=
+  match s with
+  | [] => [rev cur]
+  | c :: r => if c =? 124 then rev cur :: split_bar r [] else split_bar r (c :: cur)
+  end.
+(** None = the Go code panics (fewer than 4 fields: index out of range; taxid not an integer: log.Panicf) *)
+Definition parse_name_line (line : list N) : option (Z * bstr * bstr) :=
+  match split_bar line [] with
+  | f0 :: f1 :: _ :: f3 :: _ => match atoi (trim f0) with Some z => Some (z, trim f1, trim f3) | None => None end
+  | _ => None
+  end.
+
 
 (** ** Correspondence: one case = dump rows + queries with the observations of the real code *)
 Record case := mkcase {
@@ -336,23 +537,31 @@ Record case := mkcase {
   c_seqs : list seq;
   c_onlysn : bool;
   c_names : list name_row;
-  c_namesq : list (N * N * Z)
+  c_namesq : list (N * bstr * Z);
+  c_wf : bool;                         (* does the dump describe a rooted tree (python) *)
+  c_forms : list (tform * Z);
+  c_namesm : list (N * N * Z);
+  c_retab : list (N * bstr * bool);
+  c_nameparse : list (bstr * Z * bstr * bstr)   (* a line of names.dmp as written, and the row (taxid, name, class) it stands for *)
 }.
 
 Definition zlist_eqb (a b : list Z) : bool :=
   (Nat.eqb (length a) (length b) && forallb (fun p : Z * Z => Z.eqb (fst p) (snd p)) (combine a b))%bool.
 
+(** the model's "no value" (-3) stands for a panic (-3) or an error return (-2) of the Go code *)
+Definition zeqn (model obs : Z) : bool :=
+  if Z.eqb model (-3) then (Z.eqb obs (-3) || Z.eqb obs (-2))%bool else Z.eqb model obs.
 Definition pair_ok (t : tax) (q : N * N * Z * Z) : bool :=
   let '(a, b, ol, os) := q in
   match resolve t a, resolve t b with
-  | Some x, Some y => (Z.eqb (zon (lca t x y)) ol && Z.eqb (zob (subclade t x y)) os)%bool
+  | Some x, Some y => (zeqn (zon (lca t x y)) ol && zeqn (zob (subclade t x y)) os)%bool
   | _, _ => (Z.eqb ol (-1) && Z.eqb os (-1))%bool
   end.
 Definition path_ok (t : tax) (q : N * list Z) : bool :=
   let '(a, o) := q in
   match resolve t a with
   | None => zlist_eqb o [(-1)%Z]
-  | Some x => match path t x with None => zlist_eqb o [(-3)%Z] | Some p => zlist_eqb o (map Z.of_N p) end
+  | Some x => match path t x with None => (zlist_eqb o [(-3)%Z] || zlist_eqb o [(-2)%Z])%bool | Some p => zlist_eqb o (map Z.of_N p) end
   end.
 Definition rank_ok (t : tax) (q : N * N * Z * Z * Z) : bool :=
   let '(a, r, oat, onil, ohas) := q in
@@ -363,7 +572,7 @@ Definition rank_ok (t : tax) (q : N * N * Z * Z * Z) : bool :=
      | None => Z.eqb oat (-3)
      | Some None => (Z.eqb oat 0 && Z.eqb onil 1)%bool
      | Some (Some z) => (Z.eqb oat (Z.of_N z) && Z.eqb onil 0)%bool
-     end && Z.eqb (zob (has_rank t x r)) ohas)%bool
+     end && zeqn (zob (has_rank t x r)) ohas)%bool
   end.
 Fixpoint resolve_some (t : tax) (ids : list N) : list N :=
   match ids with
@@ -374,15 +583,56 @@ Definition set_ok (t : tax) (q : N * list N * Z) : bool :=
   let '(a, ids, o) := q in
   match resolve t a with
   | None => Z.eqb o (-1)
-  | Some x => Z.eqb (zob (belongs t x (resolve_some t ids))) o
+  | Some x => zeqn (zob (belongs t x (resolve_some t ids))) o
   end.
 Definition resolve_ok (t : tax) (q : N * Z) : bool :=
   let '(a, o) := q in Z.eqb o (match resolve t a with Some x => Z.of_N x | None => (-1)%Z end).
+Definition sf_eqb (a b : spec_float) : bool :=
+  match a, b with
+  | S754_zero s1, S754_zero s2 => Bool.eqb s1 s2
+  | S754_finite s1 m1 e1, S754_finite s2 m2 e2 => (Bool.eqb s1 s2 && Pos.eqb m1 m2 && Z.eqb e1 e2)%bool
+  | S754_infinity s1, S754_infinity s2 => Bool.eqb s1 s2
+  | S754_nan, S754_nan => true
+  | _, _ => false
+  end.
+Definition zoo (o : option N) : Z := match o with Some z => Z.of_N z | None => (-4)%Z end.
+(** what TaxonomicDistribution sees: merged_taxid, else {taxid: 1}, else {"na": 1} and Atoi("na") = 0 *)
+Definition seq_dist0 (s : seq) : list (N * Z) := match seq_dist s with Some m => m | None => [(0, 1%Z)] end.
+(** every observed outcome of Taxonomy.LCA(seq, thr) is one the model allows (a single one when no tie passes) *)
+Definition thr_ok (t : tax) (s : seq) (q : spec_float * list (Z * spec_float * Z)) : bool :=
+  let '(thr, outs) := q in
+  match wlcad (sc_b64 thr) t (seq_dist0 s) with
+  | None => forallb (fun o : Z * spec_float * Z => Z.eqb (fst (fst o)) (-3)) outs
+  | Some l => forallb (fun o : Z * spec_float * Z =>
+                existsb (fun x : option N * spec_float * Z =>
+                   (Z.eqb (zoo (fst (fst x))) (fst (fst o)) && sf_eqb (snd (fst x)) (snd (fst o)) && Z.eqb (snd x) (snd o))%bool) l) outs
+  end.
+Definition notax_ok (t : tax) (s : seq) : bool :=
+  match s_taxid s, s_merged s with
+  | None, None => Z.eqb (s_notax s) (match wlca t [(0, 1%Z)] with Some (Some z) => Z.of_N z | _ => (-3)%Z end)
+  | _, _ => Z.eqb (s_notax s) (-9)
+  end.
 Definition seq_ok (t : tax) (s : seq) : bool :=
   (zlist_eqb (seq_obs t s) (s_obs s) &&
-   forallb (fun q : N * Z => Z.eqb (atrank_attr t s (fst q)) (snd q)) (s_atrank s))%bool.
+   forallb (fun q : N * Z => Z.eqb (atrank_attr t s (fst q)) (snd q)) (s_atrank s) &&
+   forallb (thr_ok t s) (s_thr s) && notax_ok t s)%bool.
 
-Definition nameq_ok (t : tax) (rows : list name_row) (q : N * N * Z) : bool :=
+Definition form_ok (t : tax) (q : tform * Z) : bool :=
+  Z.eqb (snd q) (match taxon_of t (fst q) with Some x => Z.of_N x | None => (-1)%Z end).
+Definition namem_ok (t : tax) (rows : list name_row) (tab : list (N * bstr * bool)) (q : N * N * Z) : bool :=
+  let '(a, pat, o) := q in
+  match resolve t a with
+  | None => Z.eqb o (-1)
+  | Some x => Z.eqb o (zob (name_matching (rm_tab tab) rows x pat))
+  end.
+Definition beqb_o (a b : bstr) := beqb a b.
+Definition nameparse_ok (q : bstr * Z * bstr * bstr) : bool :=
+  let '(line, z, n, c) := q in
+  match parse_name_line line with
+  | Some (z', n', c') => (Z.eqb z z' && beqb n n' && beqb c c')%bool
+  | None => false
+  end.
+Definition nameq_ok (t : tax) (rows : list name_row) (q : N * bstr * Z) : bool :=
   let '(a, n, o) := q in
   match resolve t a with
   | None => Z.eqb o (-1)
@@ -392,7 +642,10 @@ Definition nameq_ok (t : tax) (rows : list name_row) (q : N * N * Z) : bool :=
 (** per-observable verdicts (for diagnosis) *)
 Definition diag (c : case) : list bool :=
   let t := load (c_nodes c) (c_merged c) in
-  [ wf_check t;   (* every generated taxonomy meets the hypothesis of the theorems *)
+  [ Bool.eqb (wf_check t) (c_wf c);   (* rooted trees meet the hypothesis of the theorems; dumps with dangling rows do not *)
+    forallb (form_ok t) (c_forms c);
+    forallb nameparse_ok (c_nameparse c);
+    forallb (namem_ok t (load_names (c_onlysn c) (c_names c)) (c_retab c)) (c_namesm c);
     Z.eqb (Z.of_nat (PM.cardinal (t_nodes t))) (c_len c);
     Z.eqb (Z.of_nat (PM.cardinal (t_alias t))) (c_nalias c);
     forallb (pair_ok t) (c_pairs c); forallb (path_ok t) (c_paths c); forallb (rank_ok t) (c_ranks c);
